@@ -224,7 +224,7 @@ func (m *Machine) Step(a Action) error {
 		m.label(a.Kind + ":ok")
 	} else {
 		m.label(a.Kind + ":fail")
-		if strings.HasPrefix(a.Kind, "avs") {
+		if strings.HasPrefix(a.Kind, "avs") || strings.HasPrefix(a.Kind, "reg") || a.Kind == "updToken" {
 			n := o.Note
 			if i := strings.Index(n, "message index: 0: "); i >= 0 {
 				n = n[i+18:]
@@ -310,6 +310,15 @@ func (m *Machine) Apply(a *Action) (Outcome, error) {
 		var kvs []delegationtypes.KeyValue
 		for i, op := range a.Ops {
 			kvs = append(kvs, sim.KV(m.OpAcc(op), amt(a.Amounts[i])))
+		}
+		if a.Signer > 0 {
+			from := m.ActorKey(a.Actor)
+			base := &delegationtypes.DelegationIncOrDecInfo{FromAddress: from.Bech32(), PerOperatorAmounts: kvs}
+			var msg sdk.Msg = &delegationtypes.MsgDelegation{BaseInfo: base, AssetID: assetstypes.ExocoreAssetID}
+			if a.Kind == "nativeUndelegate" {
+				msg = &delegationtypes.MsgUndelegation{BaseInfo: base, AssetID: assetstypes.ExocoreAssetID}
+			}
+			return m.cosmosAs(a, from, msg)
 		}
 		f := c.NativeDelegate
 		if a.Kind == "nativeUndelegate" {
@@ -467,14 +476,14 @@ func (m *Machine) Apply(a *Action) (Outcome, error) {
 		return m.cosmosAs(a, m.W.Operators[a.Op], msg)
 	case "regOperator":
 		who := m.Ident(a.Ident)
-		info := &operatortypes.OperatorInfo{EarningsAddr: who.Bech32(), OperatorMetaInfo: "probe", Commission: stakingtypes.NewCommission(sdk.ZeroDec(), sdk.OneDec(), sdk.OneDec())}
+		info := &operatortypes.OperatorInfo{EarningsAddr: who.Bech32(), ApproveAddr: who.Bech32(), OperatorMetaInfo: "probe", Commission: stakingtypes.NewCommission(sdk.ZeroDec(), sdk.OneDec(), sdk.OneDec())}
 		return m.cosmosAs(a, who, &operatortypes.RegisterOperatorReq{FromAddress: who.Bech32(), Info: info})
 	case "regChain":
 		return fromCall(c.Precompile(m.caller(a.Caller), sim.AssetsPrecompileAddr, c.AssetsABI(), "registerOrUpdateClientChain", uint32(a.Lz), uint8(20), fmt.Sprintf("chain-%d", a.Lz), "probe", "ECDSA"))
 	case "regToken":
 		tok := make([]byte, 32)
 		copy(tok, []byte{0xaa, byte(a.N), byte(a.N >> 8), 0x01})
-		return fromCall(c.Precompile(m.caller(a.Caller), sim.AssetsPrecompileAddr, c.AssetsABI(), "registerToken", uint32(a.Lz), tok, uint8(6), fmt.Sprintf("tok-%d", a.N), "probe", ""))
+		return fromCall(c.Precompile(m.caller(a.Caller), sim.AssetsPrecompileAddr, c.AssetsABI(), "registerToken", uint32(a.Lz), tok, uint8(6), fmt.Sprintf("tok-%d", a.N), "probe", fmt.Sprintf("TOK%d,Ethereum,8", a.N)))
 	case "updToken":
 		as := m.W.Cfg.Assets[a.Asset]
 		return fromCall(c.Precompile(m.caller(a.Caller), sim.AssetsPrecompileAddr, c.AssetsABI(), "updateToken", uint32(as.LzID), pad32b(as.AddrBytes()), "probe-"+fmt.Sprint(a.N)))
